@@ -162,6 +162,20 @@ func c06packets() [][]string {
 			ps = append(ps, []string{"pkt", "iq", hx(t), ns, hx("i<1>"), hx("srv"), hx("me@x/r")})
 		}
 	}
+	// addressing variants of IQ requests: from the server itself (no from, as a server writes to its own client), no
+	// to, neither, an id with markup; the automatic error must still be exactly one, id kept, from/to swapped
+	for _, t := range []string{"get", "set"} {
+		for _, ft := range [][2]string{{"", "me@x/r"}, {"srv", ""}, {"", ""}, {"a@x/r\"<", "b@y/'&"}} {
+			f, to := "-", "-"
+			if ft[0] != "" {
+				f = hx(ft[0])
+			}
+			if ft[1] != "" {
+				to = hx(ft[1])
+			}
+			ps = append(ps, []string{"pkt", "iq", hx(t), hx("urn:x"), hx("id-" + t), f, to})
+		}
+	}
 	for _, o := range []string{"other:streamerror", "other:smr", "other:sma", "other:features", "other:handshake"} {
 		ps = append(ps, []string{"pkt", o, "-", "~", "-", "-", "-"})
 	}
